@@ -55,6 +55,22 @@ namespace
     unsigned Loose::next_tag = 1;
     static_assert(std::is_trivially_copyable<Loose>::value, "Loose must be trivially copyable");
     int val_of(const Loose &t) { return t.v; }
+    // a handle / guard style element: implicit (trivial) copies, user-provided destructor. Constructions are not observable;
+    // the oracle counts destructor calls: an operation that removes k elements without reallocating runs exactly k of them
+    struct Handle
+    {
+        int v;
+        Handle(int x = 0) : v(x) {}
+        ~Handle() { dtors++; }
+        bool operator==(const Handle &o) const { return v == o.v; }
+        bool operator!=(const Handle &o) const { return v != o.v; }
+        bool operator<(const Handle &o) const { return v < o.v; }
+        static long dtors;
+    };
+    long Handle::dtors = 0;
+    int val_of(const Handle &t) { return t.v; }
+    template <class E> long dtor_count() { return -1; }
+    template <> long dtor_count<Handle>() { return Handle::dtors; }
 
     enum { V_PUSH, V_EMPLACE_BACK, V_INSERT, V_EMPLACE, V_INSERT_RANGE, V_ERASE_RANGE, V_ERASE_TAIL, V_POP, V_RESIZE, V_RESERVE, V_CLEAR,
            V_COPY_CTOR, V_MOVE_CTOR, V_COPY_ASSIGN, V_SELF_ASSIGN, V_MOVE_ASSIGN, V_COMPARE, V_AT, V_INSERT_SORTED, V_CTOR_N, V_CTOR_RANGE,
@@ -110,6 +126,12 @@ namespace
                 std::vector<int> m[2];
                 v[0].reset(new Vec());
                 v[1].reset(new Vec());
+                auto expect_destroyed = [&](long before, size_t gone, const char *what) {
+                    long h = dtor_count<E>();
+                    if (h < 0) return;
+                    if (gone) probe("handle_elements_destroyed");
+                    if (h - before != (long)gone) violate(std::string("C02/lifetime-destructor-count@") + what, "%s removed %zu elements of a vector<Handle>, but %ld destructors ran", what, gone, h - before);
+                };
                 auto check = [&](const char *when) {
                     check_deferred();
                     for (int w = 0; w < 2; w++)
@@ -237,27 +259,37 @@ namespace
                         if (a > b) std::swap(a, b);
                         if (a == 0 && b > 0 && b < mx.size()) probe("erase_prefix");
                         if (b < mx.size() && a < b) mid_edit = true;
+                        long h0 = dtor_count<E>();
                         x.erase(x.begin() + a, x.begin() + b);
+                        expect_destroyed(h0, b - a, "erase(range)");
                         mx.erase(mx.begin() + a, mx.begin() + b);
                         break;
                     }
                     case V_ERASE_TAIL:
                     {
                         size_t a = (size_t)mod(arg(o, 2), (int64_t)mx.size() + 1);
+                        long h0 = dtor_count<E>();
                         x.erase(x.begin() + a);
+                        expect_destroyed(h0, mx.size() - a, "erase(newend)");
                         mx.erase(mx.begin() + a, mx.end());
                         probe("erase_tail");
                         break;
                     }
                     case V_POP:
                         if (mx.empty()) break;
-                        x.pop_back();
+                        {
+                            long h0 = dtor_count<E>();
+                            x.pop_back();
+                            expect_destroyed(h0, 1, "pop_back");
+                        }
                         mx.pop_back();
                         break;
                     case V_RESIZE:
                     {
                         size_t n = (size_t)mod(arg(o, 2), 24);
+                        long h0 = dtor_count<E>();
                         x.resize(n);
+                        if (n <= mx.size()) expect_destroyed(h0, mx.size() - n, "resize");
                         mx.resize(n);
                         break;
                     }
@@ -265,11 +297,20 @@ namespace
                         x.reserve((size_t)mod(arg(o, 2), 40));
                         break;
                     case V_CLEAR:
+                    {
+                        long h0 = dtor_count<E>();
                         x.clear();
+                        expect_destroyed(h0, mx.size(), "clear");
                         mx.clear();
                         break;
+                    }
                     case V_COPY_CTOR:
+                    {
+                        long h0 = dtor_count<E>();
+                        size_t had = m[u].size();
                         v[u].reset(new Vec(x));
+                        expect_destroyed(h0, had, "destruction");
+                    }
                         m[u] = mx;
                         if (mx.empty()) probe("assign_from_empty");
                         break;
@@ -659,6 +700,7 @@ int main(int argc, char **argv)
     VecWorld<int> wi(PROP_WORLD "<int>", false);
     VecWorld<tracked::T> wt(PROP_WORLD "<Tracked>", true);
     VecWorld<Loose> wl(PROP_WORLD "<trivially-copyable-with-own-equality>", false);
+    VecWorld<Handle> wh(PROP_WORLD "<implicit-copy-with-own-destructor>", false);
     Harness h;
     h.property = "C02";
     h.worlds = {&wi, &wt};
@@ -670,6 +712,7 @@ int main(int argc, char **argv)
     h.real = {"igris/container/std_portable.h (igris::vector twin, igris::allocator replaced through the Allocator parameter)"};
 #endif
     h.worlds.push_back(&wl);
+    h.worlds.push_back(&wh);
     h.stub = {"SimAlloc behind the Allocator parameter (exact-size blocks, seed-chosen fill and reuse)", "Tracked element type (lifetime registry)", "std::vector / std::map / std::set reference"};
     return harness_main(h, argc, argv);
 }
